@@ -8,6 +8,7 @@
     simple_eq_generic_partial equivalent_spellings_agree self_prefix_irrelevant_nonpositional
     dslash_is_descendant simple_eq_generic_kmp simple_eq_generic_fragments_partial
     self_prefix_default_choice simple_eq_generic_fragments_pattern true_pred_default_choice
+    simple_eq_generic_spellings_partial
 -/
 import Genshi.Model.Path
 import Genshi.Model.PathParse
@@ -19,6 +20,7 @@ import Genshi.Lemmas.PathSimple
 import Genshi.Lemmas.PathNonPos
 import Genshi.Lemmas.PathKmpRun
 import Genshi.Lemmas.PathFrags
+import Genshi.Lemmas.PathFragsSelf
 namespace Genshi.Props.C17
 open Genshi Genshi.Path
 
@@ -713,5 +715,55 @@ theorem true_pred_default_choice (frags : List Frag) (hok : Frags.FragsOk frags)
     exact gStep_congr ns vs _ _ (all2_gSteps ns vs _ _ (all2_insert ns vs t ht k _ i)) st e
   simp only [pathTest, List.map_cons, List.map_nil, hc1, hc2, Option.getD_some, mkMatcher, traceCaller] at e2 ⊢
   rw [e2, runTest_generic, runTest_generic, hstep]
+
+/-! ## Every spelling SimplePathStrategy supports (no attribute step) -/
+
+/-- **simple_eq_generic for every supported spelling without an attribute step.**
+    Full statement: as for `simple_eq_generic_fragments_partial`.
+    Proved here: let `p` be ANY non-empty location path whose steps are on the child,
+    descendant, descendant-or-self or self axis — in any order, `self::` steps anywhere — with
+    name / `text()` / `comment()` tests and no predicates (`Frags.SStep`: what
+    `SimplePathStrategy.supports` accepts, minus a final attribute step).  Then in relative
+    mode, for both caller behaviours and every element tree, SimplePathStrategy (with the
+    fragments `__init__` computes from `p` itself) reports at every event what GenericStrategy
+    reports.  Beyond `simple_eq_generic_fragments_partial` this covers the spellings
+    `__init__` rewrites: `t/self::t` (merged: `self_merge`) and `t/self::u` (`fragments = None`,
+    the matcher never reports anything — and XPath selects nothing: `self_clash`), by an
+    induction along `__init__`'s loop (`Frags.fragLoop_sem`, `Frags.fragments_sem`).
+    Missing for the full statement: a final attribute step after a KMP fragment; the pattern
+    mode for the spellings with interior `self::` steps (for fragment paths it is
+    `simple_eq_generic_fragments_pattern`). -/
+theorem simple_eq_generic_spellings_partial (p : LocPath) (hp : ∀ s ∈ p, Frags.SStep s) (hne : p ≠ [])
+    (ns : NsMap) (vs : Vars) (skip : Bool)
+    (tag : QName) (attrs : AttrList) (kids : List Node)
+    (hcl : (Node.elem tag attrs kids).clean = true)
+    (hn : AllNodes (NodeFor p ns vs) (.elem tag attrs kids)) :
+    traceCaller (pathTest [p] false (some .simple)).1 ns vs skip
+        (pathTest [p] false (some .simple)).2 (Node.elem tag attrs kids).flatten
+      = traceCaller (pathTest [p] false (some .generic)).1 ns vs skip
+        (pathTest [p] false (some .generic)).2 (Node.elem tag attrs kids).flatten := by
+  have hkcl : cleanList kids = true := by simpa [Node.clean] using hcl
+  simp only [traceCaller, pathTest, List.map_cons, List.map_nil, mkMatcher]
+  rw [operands_agree ns vs (toXVars vs) _ _ _ _ _ _ _
+    (Frags.operand_simple_supported ns vs p hp hne tag attrs kids hkcl)
+    (operand_nonpositional _ ns vs (Frags.stepsOk_of_sstep ns vs p hp hne) tag attrs kids hcl hn)
+    (fun _ => rfl)]
+
+/-- `descendant::a/self::a/b` (merged by `__init__`) and `a/self::b/c` (`fragments = None`) -/
+def pathSelfMerge : LocPath :=
+  [⟨.descendant, .localName false ['a'], []⟩, ⟨.self, .localName false ['a'], []⟩, ⟨.child, .localName false ['b'], []⟩]
+def pathSelfClash : LocPath :=
+  [⟨.child, .localName false ['a'], []⟩, ⟨.self, .localName false ['b'], []⟩, ⟨.child, .localName false ['c'], []⟩]
+
+example : ∀ s ∈ pathSelfMerge, Frags.SStep s := by
+  intro s hs; simp [pathSelfMerge] at hs
+  rcases hs with rfl | rfl | rfl <;> exact ⟨rfl, rfl, by simp⟩
+example : fragments pathSelfMerge
+    = some [⟨[], [], none, false⟩, ⟨[.localName false ['a'], .localName false ['b']], [0, 0], none, false⟩] := by decide
+example : fragments pathSelfClash = none := by decide
+example : runTest (pathTest [pathSelfMerge] false (some .simple)).1 [] []
+    (pathTest [pathSelfMerge] false (some .simple)).2
+    (Node.elem ⟨[], ['r']⟩ [] [Node.elem ⟨[], ['a']⟩ [] [Node.elem ⟨[], ['b']⟩ [] []]]).flatten
+    = [.none, .none, .bool true, .none, .none, .none] := by decide +kernel
 
 end Genshi.Props.C17
